@@ -112,6 +112,40 @@ pub fn check(case: &ProgCase, info: &mut CaseInfo) -> Result<(), String> {
     check_with(case, info, c03::cap(case.cfg.model.bits()), cfg!(feature = "batch"))
 }
 
+/// clear / fill_solid over more than 2^30 pixels: only the traffic is judged (the reference image of
+/// such a fill is never built)
+pub fn check_giant(c: &ProgCase, info: &mut CaseInfo) -> Result<(), String> {
+        info.nontrivial = true;
+        let mut s = Session::start(&c.cfg)?;
+        for op in &c.ops {
+            // (not Session::call: the reference image of a 4-gigapixel clear is never built)
+            let pulls = std::cell::Cell::new(0u64);
+            s.dut.run(op, &pulls).map_err(|e| format!("{} failed: {:?}", op_name(op), e))?;
+            let obs = {
+                let mut wb = s.w.borrow_mut();
+                crate::exec::CallObs {
+                    trace: wb.panel.take_trace(),
+                    bursts: wb.panel.take_bursts(),
+                    errors: wb.panel.take_errors(),
+                    decode_errors: std::mem::take(&mut wb.decode_errors),
+                    in_bounds_pixels: 0,
+                    pulls: 0,
+                    spi_transactions: 0,
+                    spi_bursts: Vec::new(),
+                }
+            };
+            crate::exec::check_framing(&obs, true)?;
+            let area = c.cfg.w as u64 * c.cfg.h as u64;
+            if window_setups(&obs) != 1 || obs.bursts.len() != 1 || obs.bursts[0].pixels != area {
+                return Err(format!(
+                    "{} of {} pixels used {} address-window set-ups and bursts of {:?} pixels, expected exactly one set-up and one burst of the whole area",
+                    op_name(op), area, window_setups(&obs), obs.bursts.iter().map(|b| b.pixels).collect::<Vec<_>>()
+                ));
+            }
+        }
+        Ok(())
+}
+
 fn strategy_streams() -> BoxedStrategy<ProgCase> {
     let mut m = gen::ConfigMenu::all_transports();
     m.pin_cap = 130;
@@ -214,37 +248,7 @@ pub fn run(ctx: &Ctx) -> Report {
             }
         }
     }
-    run_enumerated(&mut sec, cases, ctx.workers, |c, info| {
-        info.nontrivial = true;
-        let mut s = Session::start(&c.cfg)?;
-        for op in &c.ops {
-            // (not Session::call: the reference image of a 4-gigapixel clear is never built)
-            let pulls = std::cell::Cell::new(0u64);
-            s.dut.run(op, &pulls).map_err(|e| format!("{} failed: {:?}", op_name(op), e))?;
-            let obs = {
-                let mut wb = s.w.borrow_mut();
-                crate::exec::CallObs {
-                    trace: wb.panel.take_trace(),
-                    bursts: wb.panel.take_bursts(),
-                    errors: wb.panel.take_errors(),
-                    decode_errors: std::mem::take(&mut wb.decode_errors),
-                    in_bounds_pixels: 0,
-                    pulls: 0,
-                    spi_transactions: 0,
-                    spi_bursts: Vec::new(),
-                }
-            };
-            crate::exec::check_framing(&obs, true)?;
-            let area = c.cfg.w as u64 * c.cfg.h as u64;
-            if window_setups(&obs) != 1 || obs.bursts.len() != 1 || obs.bursts[0].pixels != area {
-                return Err(format!(
-                    "{} of {} pixels used {} address-window set-ups and bursts of {:?} pixels, expected exactly one set-up and one burst of the whole area",
-                    op_name(op), area, window_setups(&obs), obs.bursts.iter().map(|b| b.pixels).collect::<Vec<_>>()
-                ));
-            }
-        }
-        Ok(())
-    }, sig);
+    run_enumerated(&mut sec, cases, ctx.workers, check_giant, sig);
     rep.sections.push(sec);
 
     let mut sec = Section::new(
@@ -257,6 +261,10 @@ pub fn run(ctx: &Ctx) -> Report {
     rep
 }
 
-pub fn replay(_section: &str, case: &Value) -> Result<(), String> {
-    check(&de::<ProgCase>(case)?, &mut CaseInfo::default())
+pub fn replay(section: &str, case: &Value) -> Result<(), String> {
+    let c = de::<ProgCase>(case)?;
+    if section.starts_with("giant-fills") || c.cfg.w as u64 * c.cfg.h as u64 > (1 << 26) {
+        return check_giant(&c, &mut CaseInfo::default());
+    }
+    check(&c, &mut CaseInfo::default())
 }
